@@ -39,6 +39,9 @@ theorem setLock_tie (c : DbCtx) (pfx : Nat) (lock : Bool) (hp : pfx < 256) (hl :
           Nat.mod_eq_of_lt (Nat.or_lt_two_pow (n := 8) hl hp)
         simp [hs, h0, e]
 
+/-- non-vacuity: unlocking TEMPLATE and re-locking the combined mask TEMPLATE|MENU|BIN leaves TEMPLATE locked (the sequence of seed C10/12) -/
+example : GenFn.db_SetLock 7 true (15 &&& (255 - 4)) false = ("", 15, false) := by decide
+
 end Vise.Tie
 
 #print axioms Vise.Tie.safe_tie
